@@ -1,13 +1,16 @@
 (* Threads.v — model of the "left new threads behind" check of zope TestResult (startTest snapshot,
-   stopTest comparison through threadsupport.enumerate / ThreadProxy.__eq__). *)
+   stopTest comparison through threadsupport.enumerate / ThreadProxy.__eq__), including the registry of
+   `threading` (threading._active) that decides which object stands for a running thread. *)
 From ZT Require Import Base.
 
-(* a thread as the runner can see it *)
+(* a thread as the world starts it *)
 Record thr := {
-  th_id : nat;          (* identity of the thread (unique for the whole history) *)
+  th_id : nat;          (* identity of the thread (unique among the threads alive at any time) *)
   th_ident : nat;       (* OS ident; idents of finished threads may be reused *)
   th_known : bool;      (* started through `threading` (true) or through the low-level `_thread` API (false) *)
-  th_ignored : bool     (* its name matches an --ignore-new-thread pattern (re.match oracle) *)
+  th_cur : bool;        (* a low-level thread that asks threading.current_thread() while it runs (logging does): threading
+                           registers a _DummyThread for its ident — or hands it the object already registered there *)
+  th_ignored : bool     (* the name under which it is seen matches an --ignore-new-thread pattern (re.match oracle) *)
 }.
 
 Inductive tev :=
@@ -16,29 +19,56 @@ Inductive tev :=
 | TFinish (id : nat)               (* the thread with this identity ends *)
 | TEnd (t : nat).                  (* stopTest of test t: report *)
 
+(* threading._active: OS ident -> the object threading holds for it (objects are named by the identity of the thread
+   for which they were created).  A Thread started through threading registers itself and removes the entry of its
+   ident when it ends; a _DummyThread record is created on demand and is never dropped. *)
+Definition registry := list (nat * nat).
+Fixpoint lookup (r : registry) (i : nat) : option nat :=
+  match r with [] => None | (k, o) :: r' => if Nat.eqb k i then Some o else lookup r' i end.
+Definition unreg (r : registry) (i : nat) : registry := filter (fun e => negb (Nat.eqb (fst e) i)) r.
+Definition register (r : registry) (x : thr) : registry :=
+  if th_known x then (th_ident x, th_id x) :: unreg r (th_ident x)
+  else if th_cur x then match lookup r (th_ident x) with Some _ => r | None => (th_ident x, th_id x) :: r end
+  else r.
+
+(* threadsupport.enumerate(): one proxy per running thread: the object threading has for its ident, or a
+   threadsupport.DummyThread(ident) *)
+Definition proxy := (nat * option nat)%type.       (* (ident, object) *)
+Definition proxy_of (r : registry) (x : thr) : proxy := (th_ident x, lookup r (th_ident x)).
+
 (* ThreadProxy.__eq__ (as repaired): two threads known to `threading` are the same thread iff they are the same
    object; when either is only known through sys._current_frames the OS ident is all there is *)
-Definition same (a b : thr) : bool :=
-  if th_known a && th_known b then Nat.eqb (th_id a) (th_id b) else Nat.eqb (th_ident a) (th_ident b).
+Definition same (a b : proxy) : bool :=
+  match snd a, snd b with
+  | Some oa, Some ob => Nat.eqb oa ob
+  | _, _ => Nat.eqb (fst a) (fst b)
+  end.
 
 Record tstate := {
   alive : list thr;
-  snap : list thr;                       (* self._threads *)
+  active : registry;
+  snap : list proxy;                     (* self._threads *)
   reports : list (nat * list nat)        (* (test, identities reported), in order *)
 }.
 
+Definition finish_reg (r : registry) (al : list thr) (id : nat) : registry :=
+  fold_left (fun r y => if Nat.eqb (th_id y) id && th_known y then unreg r (th_ident y) else r) al r.
+
 Definition tstep (s : tstate) (e : tev) : tstate :=
   match e with
-  | TBegin _ => {| alive := alive s; snap := alive s; reports := reports s |}
-  | TStart x => {| alive := alive s ++ [x]; snap := snap s; reports := reports s |}
-  | TFinish id => {| alive := filter (fun y => negb (Nat.eqb (th_id y) id)) (alive s); snap := snap s; reports := reports s |}
+  | TBegin _ => {| alive := alive s; active := active s; snap := map (proxy_of (active s)) (alive s); reports := reports s |}
+  | TStart x => {| alive := alive s ++ [x]; active := register (active s) x; snap := snap s; reports := reports s |}
+  | TFinish id => {| alive := filter (fun y => negb (Nat.eqb (th_id y) id)) (alive s);
+                     active := finish_reg (active s) (alive s) id; snap := snap s; reports := reports s |}
   | TEnd t =>
-    let new := filter (fun y => negb (existsb (same y) (snap s)) && negb (th_ignored y)) (alive s) in
-    {| alive := alive s; snap := snap s;
+    let new := filter (fun y => negb (existsb (same (proxy_of (active s) y)) (snap s)) && negb (th_ignored y)) (alive s) in
+    {| alive := alive s; active := active s; snap := snap s;
        reports := reports s ++ (match new with [] => [] | _ => [(t, map th_id new)] end) |}
   end.
-Definition trun (init : list thr) (h : list tev) : tstate :=
-  fold_left tstep h {| alive := init; snap := init; reports := [] |}.
+Definition boot (init : list thr) : tstate :=
+  let r := fold_left register init [] in
+  {| alive := init; active := r; snap := map (proxy_of r) init; reports := [] |}.
+Definition trun (init : list thr) (h : list tev) : tstate := fold_left tstep h (boot init).
 
 (* ---- the statement, computed independently from the history ---- *)
 (* threads started since the last TBegin, still alive, not ignored *)
@@ -56,15 +86,22 @@ Definition sstep (s : sstate) (e : tev) : sstate :=
 Definition srun (init : list thr) (h : list tev) : sstate :=
   fold_left sstep h {| s_alive := init; s_started := []; s_reports := [] |}.
 
-(* hypothesis: an ident is never handed to a new thread while the snapshot still holds a thread with that ident,
-   unless both are `threading` threads (which are told apart by identity) *)
+(* hypotheses on a history.  (1) what the OS and the world guarantee: a new thread's identity and OS ident differ from
+   those of every thread still running.  (2) the one that can fail: the object that stands for the new thread can be told
+   from everything in the snapshot — the idents differ, or both are objects of `threading` and they are different objects.
+   (It fails when an ident is handed to a new thread while the snapshot still holds a thread with that ident and either
+   of them is known by ident only, or the new low-level thread is handed the stale _DummyThread of the old one.) *)
+Definition distinguishable (p q : proxy) : bool := negb (same p q).
 Definition fresh_step (s : tstate) (e : tev) : bool :=
   match e with
-  | TStart x => forallb (fun y => negb (Nat.eqb (th_ident x) (th_ident y)) || (th_known x && th_known y)) (snap s)
-                && negb (existsb (fun y => Nat.eqb (th_id y) (th_id x)) (alive s ++ snap s))
+  | TStart x => forallb (distinguishable (proxy_of (register (active s) x) x)) (snap s)
+                && negb (mem (th_id x) (map th_id (alive s)))
+                && negb (mem (th_ident x) (map th_ident (alive s)))
   | _ => true
   end.
 Fixpoint idents_fresh_from (s : tstate) (h : list tev) : bool :=
   match h with [] => true | e :: r => fresh_step s e && idents_fresh_from (tstep s e) r end.
+Fixpoint t_nodupb (l : list nat) : bool :=
+  match l with [] => true | x :: r => negb (mem x r) && t_nodupb r end.
 Definition idents_fresh (init : list thr) (h : list tev) : bool :=
-  idents_fresh_from {| alive := init; snap := init; reports := [] |} h.
+  t_nodupb (map th_ident init) && idents_fresh_from (boot init) h.
